@@ -114,6 +114,19 @@ func c10Scenarios(tier string) []Spec {
 			}
 		}
 	}
+	// the order in which heads are handed over (JSON head list, head entries, a foreign manifest) must not matter
+	for _, sh := range []string{"fork", "heads3"} {
+		st := getStored(sh)
+		size := len(st.vals)
+		for pm := 1; pm < factorial(len(st.heads)); pm++ {
+			for _, ld := range []string{"json", "entry", "multihash"} {
+				for n := 0; n <= size+1; n++ {
+					ls := loadSpec{Shape: sh, Loader: ld, Conc: 1, N: n, Perm: pm}
+					specs = append(specs, Spec{HBCache: true, RaceBound: 0, Shards: 1, NoRace: true, Sc: makeLoad("C10", ls, judgeC10)})
+				}
+			}
+		}
+	}
 	// larger stored logs on the default schedule only
 	var batch []sched.Scenario
 	big := []string{"stale", "chain6", "wide", "heads3"}
